@@ -41,6 +41,7 @@ THEOREMS = [
     "SleapVerif.C14.dec_spatial_exact",
     "SleapVerif.C14.output_spatial",
     "SleapVerif.C14.heads_independent",
+    "SleapVerif.C14.head_contract_order_independent",
     "SleapVerif.C14.up_interpolate_irrelevant",
     "SleapVerif.C14.arch_grid_ok",
     "SleapVerif.C14.arch_grid_ok_partial",
@@ -103,13 +104,22 @@ def head_list(c):
 
 
 def head_specs(c):
-    """head specs for the Lean driver: the model computes the channel counts from the lists"""
-    cm = f"c {c['hos']} " + lst(parts_of(c))
+    """the `head_configs` MAPPING for the Lean driver, in the mapping's own key order: `name spec` per
+    entry; the model looks the entries up by name (`getHeads`) and computes the channel counts from the lists"""
+    cm = f"confmaps c {c['hos']} " + lst(parts_of(c))
     if c["kind"] == "centroid":
-        return [f"k {c['hos']}"]
+        return [f"confmaps k {c['hos']}"]
     if c["kind"] == "bottomup":
-        return [cm, f"p {c['pos']} " + lst(edges_of(c), lambda e: f"{e[0]} {e[1]}")]
+        pf = f"pafs p {c['pos']} " + lst(edges_of(c), lambda e: f"{e[0]} {e[1]}")
+        return [pf, cm] if c.get("pafs_first") else [cm, pf]
     return [cm]
+
+
+def expected_by_name(c, B, h, w):
+    """the contract PER HEAD NAME (independent of the model and of any position): each head's own config
+    entry gives its stride and its channel count"""
+    names = HEAD_NAMES[c["kind"]]
+    return {name: (B, ch, h // os_, w // os_) for (os_, ch), name in zip(head_list(c), names)}
 
 
 def doc_valid(c):
@@ -192,7 +202,7 @@ def model_line(c, calls):
     var = VARIANTS[c["fam"]].index(c["variant"]) if c["fam"] != "unet" else 0
     hl = head_specs(c)
     return (f"model {c['fam']} {var} {c['filters']} {p} {q} {c['ms']} {c['bos']} {c['stem'] or 0} {c['cpb']} "
-            f"{int(c['mid'])} {int(c['upi'])} 1 {int(FIX['mid'])} {int(FIX['wrap'])} {c.get('stem_kernel', 4)} {int(FIX['head'])} " + lst(hl) + " "
+            f"{int(c['mid'])} {int(c['upi'])} 1 {int(FIX['mid'])} {int(FIX['wrap'])} {c.get('stem_kernel', 4)} {int(FIX['head'])} {int(c['kind'] == 'bottomup')} " + lst(hl) + " "
             + lst(calls, lambda hw: f"{hw[0]} {hw[1]}"))
 
 
@@ -223,6 +233,7 @@ def gen_cfg(rng, fam=None, small=True):
              edge_list=[list(e) for e in edge_list],
              cpb=rng.choice([1, 2, 2, 2, 3]), upi=rng.random() < 0.6, mid=rng.random() < 0.8,
              rate=rng.choice(["1", "3/2", "2", "2"]), filters=0, variant="", float_rate=rng.random() < 0.2)
+    c["pafs_first"] = kind == "bottomup" and rng.random() < 0.5  # key order of the head_configs mapping
     c["kernel"] = rng.choice([3, 3, 3, 1, 2, 4, 5, 2, 4])  # conv geometry: every k >= 1 is valid ("same" padding)
     if fam == "unet":
         c["filters"] = rng.choice([8, 16, 24, 32, 64])
@@ -317,9 +328,13 @@ def build_real(c):
         if c["kind"] == "bottomup":
             hc["pafs"] = dict(edges=[[f"n{u}", f"n{v}"] for u, v in edges_of(c)], sigma=4.0,
                               output_stride=c["pos"], loss_weight=1.0)
+            if c.get("pafs_first"):  # the mapping's key order is the user's: `pafs` may come before `confmaps`
+                hc = {"pafs": hc["pafs"], "confmaps": hc["confmaps"]}
     from sleap_nn.architectures.model import Model
 
-    return Model(c["fam"], OmegaConf.create(bc), OmegaConf.create(hc), 1, c["kind"])
+    # the public construction path, with DictConfig mappings as the trainer passes them
+    return Model.from_config(backbone_type=c["fam"], backbone_config=OmegaConf.create(bc),
+                             head_configs=OmegaConf.create(hc), input_expand_channels=1, model_type=c["kind"])
 
 
 def norm(s):
@@ -329,9 +344,8 @@ def norm(s):
 # The model is always run with both fix flags ON: that is what /repo's HEAD does (24db0b1, e4cd03e) and
 # what the theorems are about.  A tree in which a fix is reverted disagrees with the model and fails
 # the oracle on the repaired region; the `fixed` entries' witnesses are replayed as regressions.
-# `head`: fixes/C14-head-in-channels.patch (not applied to /repo yet): detected on the real objects, because the
-# pinned tree and the patched tree are both legitimate states until the coordinator applies it.
-FIX = {"mid": True, "wrap": True, "head": False}
+# `head`: fixes/C14-head-in-channels.patch = /repo commit c60aeeb, forced ON like the other two.
+FIX = {"mid": True, "wrap": True, "head": True}
 
 
 def detect_fixes():
@@ -346,7 +360,6 @@ def detect_fixes():
     m = call(build_real, WITNESSES["F-C14-head-in-channels"])
     if m[0] == "ok":
         det["head"] = [hl[0].in_channels for hl in m[1].head_layers] == [20]
-        FIX["head"] = det["head"]
     return det
 
 
@@ -520,8 +533,7 @@ def oracle(c, calls, made, info, B):
         if not info["batch_ok"] or not info["finite"]:
             return "batch dimension changed or non-finite output (off-grid input)"
         return None
-    for i, ((os_, ch), name) in enumerate(zip(head_list(c), names)):
-        want = (B, ch, h // os_, w // os_)
+    for name, want in expected_by_name(c, B, h, w).items():  # shape clause per head NAME
         if info["out"][name] != want:
             return f"{name}: shape {info['out'][name]} != contracted {want}"
     # "the same shape the data pipeline produces for that head's targets": every entry point, also for
@@ -943,6 +955,16 @@ def main(chk: Check):
                     (dict(base_w, fam="unet", rate="1", ms=8, stem=2, cpb=1, mid=False, filters=16, variant=""), (8, 16)),
                     (dict(base_w, fam="unet", rate="1", ms=16, stem=None, cpb=1, filters=8, variant=""), (16, 16))):
         cases.append((c, [size], 1, ["fixed_region:excluded_or_boundary"]))
+    # head_configs mapping in BOTH key orders, different strides per head (the only multi-head model type
+    # get_head builds is bottomup: confmaps + pafs)
+    for fam, extra, hos, pos in (("unet", dict(filters=8, ms=16, stem=None, variant="", bos=2), 2, 4),
+                                 ("unet", dict(filters=8, ms=16, stem=2, variant="", bos=1), 4, 1),
+                                 ("swint", dict(filters=0, ms=16, stem=2, variant="tiny", bos=2), 2, 8)):
+        for pf in (True, False):
+            c = dict(fam=fam, kind="bottomup", parts=3, edges=2, cpb=2, upi=True, mid=True, rate="2", float_rate=False,
+                     hos=hos, pos=pos, pafs_first=pf, **extra)
+            S = real_max_stride(c)
+            cases.append((c, [(2 * S, 3 * S)], 2, ["fixed_region:head_mapping_order"]))
     # truncation compounds (non-integer rate x small filters x deep encoder): every block's channels by
     # introspection + forward; chosen so that the head arithmetic agrees on the unchanged tree
     for f, rate, ms, stem, bos, hos in ((6, "3/2", 16, None, 2, 2), (4, "3/2", 32, None, 1, 1), (10, "3/2", 32, 2, 2, 4),
